@@ -93,6 +93,8 @@ def instance(name: str, version, i: int) -> dict:
         return {"a": i}
     if name == "fam.const":
         return {"label": f"l{i}", "@id": f"urn:x:{i}"} if i % 2 else {"label": f"l{i}"}
+    if name == "fam.strict":
+        return {"s": i}
     if name == "fam.units":
         return {"dur": "PT3H4M1S", "unit": "meter * candela", "qty": f"{i + 1} kilogram / second ** 2"}
     if name == "fam.nested":
@@ -105,5 +107,5 @@ ATTACHABLE = [
     ("core.dir", (0, 1, 0)), ("core.file", (0, 1, 0)), ("core.imagefile", (0, 1, 0)), ("core.bib", (0, 1, 0)),
     ("core.table", (0, 1, 0)), ("core.person", (0, 1, 0)),
     ("fam.base", (0, 1, 0)), ("fam.base", (0, 2, 0)), ("fam.base", (1, 0, 0)), ("fam.mid", (0, 1, 0)), ("fam.mid", (0, 3, 0)),
-    ("fam.leaf", (0, 1, 0)), ("fam.const", (0, 1, 0)), ("fam.units", (0, 1, 0)), ("fam.nested", (0, 1, 0)),
+    ("fam.leaf", (0, 1, 0)), ("fam.const", (0, 1, 0)), ("fam.strict", (0, 1, 0)), ("fam.units", (0, 1, 0)), ("fam.nested", (0, 1, 0)),
 ]
